@@ -32,6 +32,7 @@ type c20LDef struct {
 
 type c20PTy struct {
 	K     string  `json:"k"`
+	Ty    string  `json:"ty"`
 	Ref   int     `json:"ref"`
 	Items *c20PTy `json:"items"`
 	Props []struct {
@@ -108,14 +109,16 @@ type c20Node struct {
 	keys  []string
 	vals  []*c20Node
 	items []*c20Node
-	rec   bool // mapping decoded into a Go struct (closed set of keys)
-	def   int  // index of that struct
+	rec   bool     // mapping decoded into a Go struct (closed set of keys)
+	def   int      // index of that struct (-1: built from the published tables)
+	decl  []string // keys declared for this mapping (struct fields / published properties)
 	flow  bool
 }
 
 func (n *c20Node) clone() *c20Node {
 	c := *n
 	c.keys = append([]string(nil), n.keys...)
+	c.decl = n.decl
 	c.vals = make([]*c20Node, len(n.vals))
 	for i, v := range n.vals {
 		c.vals[i] = v.clone()
@@ -286,7 +289,9 @@ func (g *c20Gen) gen(t c20LTy, depth int, key string) *c20Node {
 			out.vals = append(out.vals, g.gen(*t.Elem, depth+1, key))
 		}
 		return out
-	case "ref":
+	case "ref", "opaque":
+		// opaque = struct with a custom unmarshaller: still a struct of the configuration
+		// language, the property demands that it rejects unknown keys like any other
 		return g.record(t.Ref, depth)
 	}
 	panic("c20: unknown lty kind " + t.K)
@@ -294,7 +299,7 @@ func (g *c20Gen) gen(t c20LTy, depth int, key string) *c20Node {
 
 func (g *c20Gen) record(def, depth int) *c20Node {
 	d := g.f.LEnv[def]
-	out := &c20Node{kind: c20KMap, rec: true, def: def}
+	out := &c20Node{kind: c20KMap, rec: true, def: def, decl: g.f.members(def)}
 	if g.r.chance(8) && depth > 0 {
 		out.flow = true
 	}
@@ -315,7 +320,7 @@ func (g *c20Gen) record(def, depth int) *c20Node {
 		for t.K == "list" || t.K == "fmap" {
 			t = *t.Elem
 		}
-		return t.K == "ref"
+		return t.K == "ref" || t.K == "opaque"
 	}
 	if g.f.isUnion(def) && len(cands) > 0 {
 		n := 1
@@ -394,7 +399,7 @@ func c20PathTo(f *c20File, target int) (*c20Node, *c20Node) {
 			for t.K == "list" || t.K == "fmap" {
 				t = *t.Elem
 			}
-			if t.K == "ref" {
+			if t.K == "ref" || t.K == "opaque" {
 				if _, seen := prev[t.Ref]; !seen {
 					prev[t.Ref] = step{d, fl.Key}
 					queue = append(queue, t.Ref)
@@ -440,4 +445,131 @@ func c20PathTo(f *c20File, target int) (*c20Node, *c20Node) {
 		cur = child
 	}
 	return root, cur
+}
+
+// ---- generator from the PUBLISHED tables alone ------------------------------------------------
+// Used always (a second, loader-independent source of documents) and as the fallback when the
+// loader side of the extractor refuses: documents that the published schema accepts, with the
+// closed objects (`additionalProperties: false`) marked as records.
+
+func (g *c20Gen) pubResolve(t c20PTy) c20PTy {
+	for i := 0; i < len(g.f.PEnv)+1 && t.K == "ref"; i++ {
+		t = g.f.PEnv[t.Ref]
+	}
+	return t
+}
+
+func (g *c20Gen) pgen(t c20PTy, depth int, key string) *c20Node {
+	t = g.pubResolve(t)
+	g.kinds["pub-"+t.K]++
+	switch t.K {
+	case "top":
+		return &c20Node{kind: c20KScalar, sval: "v"}
+	case "scalar":
+		switch t.Ty {
+		case "boolean":
+			return &c20Node{kind: c20KScalar, sval: g.r.chance(50)}
+		case "integer":
+			return &c20Node{kind: c20KScalar, sval: g.r.intn(4)}
+		case "number":
+			return &c20Node{kind: c20KScalar, sval: 1.5}
+		}
+		return &c20Node{kind: c20KScalar, sval: c20String(key)}
+	case "arr":
+		n := g.r.intn(3)
+		if depth >= g.maxDepth {
+			n = g.r.intn(2)
+		}
+		out := &c20Node{kind: c20KSeq}
+		for i := 0; i < n; i++ {
+			out.items = append(out.items, g.pgen(*t.Items, depth+1, key))
+		}
+		return out
+	case "obj":
+		if t.Addl == nil || t.Addl.K != "bot" {
+			// open object: free-form keys, values follow additionalProperties
+			out := &c20Node{kind: c20KMap}
+			if len(t.Props) > 0 {
+				panic("c20: open published object with properties is not generated")
+			}
+			for i := 0; i < g.r.intn(3); i++ {
+				k := fmt.Sprintf("k%d", i)
+				if key == "defaults" {
+					k = fmt.Sprintf("p.O.f%d", i)
+				}
+				v := &c20Node{kind: c20KScalar, sval: "v"}
+				if t.Addl != nil {
+					v = g.pgen(*t.Addl, depth+1, key)
+				}
+				out.keys = append(out.keys, k)
+				out.vals = append(out.vals, v)
+			}
+			return out
+		}
+		out := &c20Node{kind: c20KMap, rec: true, def: -1}
+		deep := 0
+		for _, pp := range t.Props {
+			out.decl = append(out.decl, pp.Key)
+			if g.pubDeep(pp.Ty) {
+				deep++
+			}
+		}
+		idx := make([]int, len(t.Props))
+		for i := range idx {
+			idx[i] = i
+		}
+		for i := len(idx) - 1; i > 0; i-- {
+			j := g.r.intn(i + 1)
+			idx[i], idx[j] = idx[j], idx[i]
+		}
+		// rule entries / inputs / output languages: objects whose members are (almost) all
+		// objects themselves; one member is what a valid file has
+		if len(t.Props) >= 6 && deep >= len(t.Props)-1 {
+			taken := 0
+			for _, i := range idx {
+				if taken < 1 && g.pubDeep(t.Props[i].Ty) {
+					out.keys = append(out.keys, t.Props[i].Key)
+					out.vals = append(out.vals, g.pgen(t.Props[i].Ty, depth+1, t.Props[i].Key))
+					taken++
+				}
+			}
+			return out
+		}
+		for _, i := range idx {
+			pp := t.Props[i]
+			p := 45
+			if depth >= g.maxDepth && g.pubDeep(pp.Ty) {
+				p = 0
+			}
+			if c20Forced[pp.Key] {
+				p = 100
+			}
+			if depth == 0 {
+				p = 85
+			}
+			if !g.r.chance(p) {
+				continue
+			}
+			out.keys = append(out.keys, pp.Key)
+			out.vals = append(out.vals, g.pgen(pp.Ty, depth+1, pp.Key))
+		}
+		return out
+	}
+	return &c20Node{kind: c20KNull}
+}
+
+// pubDeep: the published type leads to a closed object
+func (g *c20Gen) pubDeep(t c20PTy) bool {
+	for i := 0; i < 2*len(g.f.PEnv)+4; i++ {
+		t = g.pubResolve(t)
+		switch {
+		case t.K == "arr" && t.Items != nil:
+			t = *t.Items
+		case t.K == "obj" && len(t.Props) == 0 && t.Addl != nil && t.Addl.K != "bot":
+			t = *t.Addl
+		default:
+			return t.K == "obj"
+		}
+	}
+	return false
 }
